@@ -28,6 +28,9 @@ func Verify(blob []byte, params VerifyParams) (*VerifiedBlob, error) {
 	if err != nil {
 		return nil, err
 	}
+	if len(sig.Directories) == 0 {
+		return nil, errors.New("signature does not contain a code directory")
+	}
 	// verify hashes in each code directory
 	computedHashes := make(map[crypto.Hash][]byte)
 	var hashFunc crypto.Hash
